@@ -41,8 +41,8 @@ Proof.
   apply generic_format_FLT. exists (Float radix2 m e); [reflexivity| |]; cbn [Fnum Fexp]; assumption.
 Qed.
 
-(* the executable criterion of Float64.v, stated (not proved here): d inside the rounding interval of x rounds to x.
-   It is evaluated on every generated float by check_spec (CFloatRT) and agrees there with the implementation's
-   float(from_float(x)) == x. *)
+(* the executable criterion of Float64.v: d inside the rounding interval of x rounds to x.  Proved in ProofsRound.v
+   (round 4).  It is evaluated on every generated float by check_spec (CFloatRT) and agrees there with the
+   implementation's float(from_float(x)) == x. *)
 Definition rounds_to_correct_statement : Prop := forall (m e : Z) (d : Q),
   canonical64 m e = true -> rounds_to m e d = true -> RN64 (Q2R d) = F2R (Float radix2 m e).
